@@ -33,6 +33,9 @@ CLAIMS = {
  "C17": ("Generated rate/burst/latency configurations and concurrent client behaviours through the real throttle handler; every underlying read is time-stamped and an invariant over that history (cumulative bytes <= burst + rate x elapsed, per connection and in total; latency respected; stream intact) is checked. Real time, one-sided assertions.",
          "golang.org/x/time/rate is the limiter under the handler; the wall clock is only used in the direction in which load cannot cause a false alarm.",
          "property-based testing (rapid); invariant over a time-stamped read history"),
+ "C05": ("Generated timeouts, wall-clock phases, client schedules and route lists executed in real time on the TCP path (Server.handle) and on the UDP virtual connection; one-sided timing invariants (never early / bounded late), the buffer bound and fail-closed behaviour are checked per case. Sampled; timing upper bounds use generous slack and must reproduce.",
+         "Real clock and scheduler; scripted TCP connection and harness-fed packetConn (overlay shim) instead of kernel sockets, so that silence, trickling and flooding are exact.",
+         "property-based testing (rapid) over schedules, real-time invariants"),
 }
 NOT_YET = "check not built yet in this session (planned, see DESIGN.md); not claimed until it is"
 
